@@ -2,7 +2,7 @@
 from checks.hub_common import run_hub, replay_hub
 
 PID = "C02"
-RULE = ("seeded sample of transaction shapes (1–4 keys × 1–3 regions × primary position × {put,delete,insert,lock-only} × {opt,pess} × {2pc,async,1pc}); a fault-free probe run counts the RPCs of the final call; then for every RPC index i × {undelivered, delivered-unanswered} the client is killed there (thorough: plus a concurrent reader / conflicting writer / split at that instant); the clock then passes every TTL, a fresh client reads all keys (get / batch get / scan) and a GC pass or a pessimistic locker pass removes the rest; `audit mvcc/locks/outcome` go to the judge; next to every plain crash point the same crash point with a region split at that instant (thorough: every shape; quick: every fourth); PRE-HISTORY family (c02hist.go): failed multi-region or single-key LockKeys statements before the Commit, asynchronous pessimistic rollback delivered or lost, a changed primary, a client that met the stale locks earlier, crash variants at the commit point, recovery by that warm client or by a fresh one; cancel of the caller's context at the crash index (every fourth shape); directed async-recovery family (profile full: a secondary region starved of its prewrite, recovery after the ttl, both arrival orders of the CheckSecondaryLocks answers); slow-owner family (owner held before the primary commit, a foreign client meets a secondary around the ttl instant, clock step between execution and delivery of its status check); shape kind insdel (insert then delete: check-only mutation)")
+RULE = ("seeded sample of transaction shapes (1–4 keys × 1–3 regions × primary position × {put,delete,insert,lock-only} × {opt,pess} × {2pc,async,1pc}); a fault-free probe run counts the RPCs of the final call; then for every RPC index i × {undelivered, delivered-unanswered} the client is killed there (thorough: plus a concurrent reader / conflicting writer / split at that instant); the clock then passes every TTL, a fresh client reads all keys (get / batch get / scan) and a GC pass or a pessimistic locker pass removes the rest; `audit mvcc/locks/outcome` go to the judge; next to every plain crash point the same crash point with a region split at that instant (thorough: every shape; quick: every fourth); PRE-HISTORY family (c02hist.go): failed multi-region or single-key LockKeys statements before the Commit, asynchronous pessimistic rollback delivered or lost, a changed primary, a client that met the stale locks earlier, crash variants at the commit point, recovery by that warm client or by a fresh one; cancel of the caller's context at the crash index (every fourth shape); directed async-recovery family (profile full: a secondary region starved of its prewrite, recovery after the ttl, both arrival orders of the CheckSecondaryLocks answers); slow-owner family (owner held before the primary commit, a foreign client meets a secondary around the ttl instant, clock step between execution and delivery of its status check); shape kind insdel (insert then delete: check-only mutation); round 3: commit mode `both` (one-phase + async enabled), aged shapes (transaction seconds or more than 24 h old at Commit, widened async safe window), gc-merge family (regions merge / split under a GC pass) with the oracle `a gc call that answers ok leaves no lock with start ts ≤ its safe point`")
 
 
 def run(a):
